@@ -48,13 +48,34 @@ fn setup(ctx: &Ctx, rng: &mut Rng, b: &mut Builder, hooks: &Hooks) -> Result<Set
     // one failing module so that error texts are logged too
     let p = b.publish(&w);
     env.serve(&p);
+    // Local exceptions in half of the set-ups: an assertion that is listed in two files (two exception sources for one
+    // item), one listed twice in one file, and one that repeats a VRP the repositories publish (published + exception).
+    let e = expect_fresh(&w, w.now, &Policy::default());
+    let mut asserted: BTreeSet<Vrp> = BTreeSet::new();
+    if rng.bool() {
+        let mut a: Vec<Vrp> = vec![(true, (198u128 << 120) | (51u128 << 112) | (100u128 << 104), 24, 24, 64999), (false, 0x2001_0db8_ffffu128 << 80, 48, 56, 64998)];
+        if let Some(v) = e.vrps.iter().next() { a.push(*v); }
+        let mut entry = |v: &Vrp| format!("{{\"asn\": {}, \"prefix\": \"{}/{}\", \"maxPrefixLength\": {}, \"comment\": \"c {}\"}}", v.4,
+            if v.0 { std::net::Ipv4Addr::from((v.1 >> 96) as u32).to_string() } else { std::net::Ipv6Addr::from(v.1).to_string() }, v.2, v.3, hostile(rng).replace('\\', "/").replace('"', "'").chars().filter(|c| !c.is_control()).collect::<String>());
+        let file = |items: Vec<String>| format!("{{\"slurmVersion\": 1, \"validationOutputFilters\": {{\"prefixFilters\": [], \"bgpsecFilters\": []}}, \"locallyAddedAssertions\": {{\"prefixAssertions\": [{}], \"bgpsecAssertions\": []}}}}", items.join(", "));
+        let f1 = env.dir.join("exceptions1.json"); let f2 = env.dir.join("exceptions2.json");
+        let all: Vec<String> = a.iter().map(|v| entry(v)).collect();
+        std::fs::write(&f1, file(vec![all[0].clone(), all[0].clone(), all[1].clone()].into_iter().chain(all.get(2).cloned()).collect())).map_err(|e| e.to_string())?;
+        std::fs::write(&f2, file(vec![all[0].clone(), all[1].clone()])).map_err(|e| e.to_string())?;
+        env.config.exceptions = vec![f1, f2];
+        asserted.extend(a.iter().cloned());
+    }
     let mut srv = TestServer::start_with_config(env.config.clone(), true)?;
+    if !env.config.exceptions.is_empty() {
+        srv.exceptions = routinator::slurm::LocalExceptions::load(&env.config, true).map_err(|_| "exceptions files not accepted".to_string())?;
+    }
     srv.process_once(false).map_err(|_| "validation run failed".to_string())?;
     let _ = hooks;
     let snap = srv.history.read().current().ok_or("no snapshot")?;
     let expected = observe(&snap);
-    // self-check against the oracle so that the data set is what the world says
-    let e = expect_fresh(&w, w.now, &Policy::default());
+    // self-check against the oracle so that the data set is what the world says (plus the assertions)
+    let mut e = e;
+    e.vrps.extend(asserted.iter().cloned());
     let (su, mi) = compare(&e, &expected, &super::worlds::ec_hex(b));
     if !su.is_empty() || !mi.is_empty() { return Err(format!("data set differs from the world oracle: {:?} {:?}", su.first(), mi.first())) }
     Ok(Setup { srv, world: w, expected, tal_names })
